@@ -28,7 +28,16 @@ AddVerdicts(ev) ==
   LET a == T(ev.a)  b == T(ev.b)  out == T(ev.out) IN
   (IF ~PropAdder(a, b, out) THEN <<"adder_sum_not_representable">> ELSE <<>>)
   \o (IF out # DesignAdderType(a, b) THEN <<"DEV_differs_from_transcribed_rule">> ELSE <<>>)
+\* {op:"merge", kind \in {"Add","Maximum","Minimum","Concatenate"}, a, b: operand types, out, same: operands identical}
+MergeVerdicts(ev) ==
+  LET a == T(ev.a)  b == T(ev.b)  out == T(ev.out) IN
+  IF ev.kind = "Add"
+  THEN (IF ~PropAdder(a, b, out) THEN <<"merge_add_sum_not_representable">> ELSE <<>>)
+       \o (IF out # DesignMergeAdd(a, b) THEN <<"DEV_differs_from_transcribed_rule">> ELSE <<>>)
+  ELSE (IF ~PropMergeSelect(a, b, out) THEN <<"merge_output_does_not_contain_operand">> ELSE <<>>)
+       \o (IF ev.same = 0 /\ out # DesignMergeSelect(a, b) THEN <<"DEV_differs_from_transcribed_rule">> ELSE <<>>)
 Verdicts(ev) == CASE ev.op = "mul" -> MulVerdicts(ev) [] ev.op = "acc" -> AccVerdicts(ev) [] ev.op = "add" -> AddVerdicts(ev)
+                  [] ev.op = "merge" -> MergeVerdicts(ev)
 Init == i = 1
 Next == /\ i <= Len(Tr)
         /\ LET v == Verdicts(Tr[i]) IN IF v # <<>> THEN PrintT(<<"REJECT", i, v>>) ELSE TRUE
